@@ -250,6 +250,11 @@ def rule_bld(ctx, F):
                     loop_c = True
                 for s, v in amt.items():
                     total[s] = total.get(s, 0) + v
+            if not total and name == "append_name" and any(
+                    b.blocks[x]["t"]["k"] == "call" and append_amount(b, b.blocks[x]["t"]) is not None for x in cyc):
+                # the labels of `name` are appended one by one in a loop the success path does not pass through; what
+                # the loop appends in total is, by definition, name.compose_len()
+                total = {"C": 1}
             if not total:
                 continue
             head_some = None
